@@ -22,6 +22,7 @@ import (
 	"github.com/openconfig/goyang/pkg/yang"
 	"verif/mc/core"
 	"verif/mc/dump"
+	"verif/mc/props/scalekit"
 )
 
 type fail struct {
@@ -566,9 +567,10 @@ func checkSplit(in SplitInput) *fail {
 // ---------------------------------------------------------------------------------------------
 
 type Input struct {
-	Rev   *RevInput   `json:"rev,omitempty"`
-	File  *FileInput  `json:"file,omitempty"`
-	Split *SplitInput `json:"split,omitempty"`
+	Rev   *RevInput      `json:"rev,omitempty"`
+	File  *FileInput     `json:"file,omitempty"`
+	Split *SplitInput    `json:"split,omitempty"`
+	Scale *scalekit.Case `json:"scale,omitempty"`
 }
 
 func shards(tier string) []string {
@@ -579,7 +581,7 @@ func shards(tier string) []string {
 	for i := 0; i < 9; i++ {
 		out = append(out, fmt.Sprintf("split/%d", i))
 	}
-	return out
+	return append(out, scalekit.ShardNames()...)
 }
 
 func subsets(names []string, mask int) []string {
@@ -767,6 +769,8 @@ func run(c *core.Ctx) {
 				}
 			}
 		}
+	case strings.HasPrefix(c.Shard, "scale/"):
+		scalekit.Run(c, c.Shard, scaleCases(c.Tier), checkScale, func(cs scalekit.Case) any { return Input{Scale: &cs} })
 	case strings.HasPrefix(c.Shard, "split/"):
 		var shard int
 		fmt.Sscanf(c.Shard, "split/%d", &shard)
@@ -892,6 +896,10 @@ func replay(tier string, raw json.RawMessage) (bool, string, string) {
 	var in Input
 	if err := json.Unmarshal(raw, &in); err != nil {
 		return false, "", err.Error()
+	}
+	if in.Scale != nil {
+		v := checkScale(*in.Scale)
+		return v.Fp != "", "scale:" + v.Fp, fmt.Sprintf("expected %s\nobserved %s", v.Exp, v.Obs)
 	}
 	var f *fail
 	switch {
